@@ -97,9 +97,16 @@ FPrecalc(r) ==
              o == r.out
          IN  F("NoCallNDValue", CloseSeq(o.nocall, NoCallND(r.in.covs, r.in.nseq, Fs), TolForAll(Fs))) \cup
              F("NoCallNDIn01", \A k \in 1..Len(o.nocall) : In01(o.nocall[k])) \cup
-             F("RegimeSwitch", Len(o.usesim) = Size(sh) /\ Len(o.nocall) = Size(sh) /\
+             F("RegimeSwitch", Len(o.usesim) = Size(sh) /\ Len(o.nocall) = Size(sh) /\ IsNumSeq(o.nocall) /\
                                \A k \in 1..Size(sh) : o.usesim[k] = RLt(RNorm(r.in.thr), o.nocall[k])) \cup
-             F("SubsampleMatValue", \A p \in 1..P : CloseMat(o.proj[p], SubsampleMat(r.in.covs[p], r.in.nseq[p], r.in.nsub[p], Fs[p]), TolFor(Fs[p]))) \cup
+             \* each subsampling matrix is the projection matrix times a survival factor lam[p] = its first entry
+             F("SubsampleMatValue", \A p \in 1..P : ShapeMat(o.proj[p], r.in.nseq[p] + 1, r.in.nsub[p] + 1) /\ IsNum(o.proj[p][1][1]) /\
+                                       CloseMat(o.proj[p], ScaleMat(o.proj[p][1][1], ProjectionMatrix(r.in.nseq[p], r.in.nsub[p], Fs[p])), TolFor(Fs[p]))) \cup
+             \* the factor is dadi's (enough individuals covered in all populations) or the population's own probability;
+             \* C18 does not say how the factor is spread over the populations, only that it is a probability
+             F("SurvivalFactor", \A p \in 1..P : Len(o.proj[p]) >= 1 /\ Len(o.proj[p][1]) >= 1 /\ In01(o.proj[p][1][1]) /\
+                                    (\/ RCloseRel(o.proj[p][1][1], SurvivalAll(r.in.covs, r.in.nseq, r.in.nsub), Tau, Tiny)
+                                     \/ RCloseRel(o.proj[p][1][1], EnoughCovered(r.in.covs[p], r.in.nseq[p], r.in.nsub[p]), Tau, Tiny))) \cup
              F("SubsampleMatSubStochastic", \A p \in 1..P : SubStochObs(o.proj[p])) \cup
              F("CallErrValue", \A p \in 1..P : CloseMat(o.heterr[p], CallingErrorMatrix(r.in.covs[p], r.in.nsub[p], Fs[p]), TauLog)) \cup
              F("CallErrRowStochastic", \A p \in 1..P : RowStochObs(o.heterr[p])) \cup
@@ -108,8 +115,12 @@ FPrecalc(r) ==
 
 \* ---- the corrected model: composition of the observed components ----
 TotalNotIncreased(out, s) == RLeq(RSum(out.d), RMul(OnePlus(Tau), RSum(s.d)))
+CompsFinite(c) == /\ IsNumSeq(c.nocall)
+                  /\ \A p \in 1..Len(c.proj) : IsNumMat(c.proj[p]) /\ IsNumMat(c.heterr[p])
+                  /\ \A j \in 1..Len(c.sims) : IsNumSeq(c.sims[j].d)
 FApply(r) ==
     IF Raised(r) THEN {"ApplyRaised"}
+    ELSE IF ~CompsFinite(r.in.pre) \/ ~IsNumSeq(r.in.s.d) THEN {"ApplyComponentsNotFinite"}
     ELSE LET s == r.in.s
              c == r.in.pre
              exp == Compose(s.sh, Zeroed(s), c.nocall, c.usesim, c.proj, c.heterr, c.sims)
@@ -130,14 +141,17 @@ FDeep(r) ==
              Fs == [p \in 1..P |-> RNorm(r.in.F[p])]
              o == r.out.s
              lim == DeepLimit(s, r.in.nseq, r.in.nsub, Fs)
-             floor == RMul("1/1000000000000000000000000000000", RSeqMaxAbs(lim.d))
+             \* at depth >= DeepDepth = 50 the miscall and no-call terms are below n (1 + d) 2^-d < 1e-12
+             floor == RMul("1/1000000000000", RSeqMaxAbs(lim.d))
              plain == \A p \in 1..P : Fs[p] = "0"
              pr == Project([s EXCEPT !.f = FALSE], r.in.nsub)
          IN  F("DeepInput", \A p \in 1..P : IsDeep(r.in.covs[p])) \cup
              F("DeepShape", o.sh = lim.sh /\ Len(o.d) = Size(o.sh)) \cup
              (IF o.sh = lim.sh /\ Len(o.d) = Size(o.sh)
-              THEN F("DeepEqualsSubsampling", \A k \in 1..Size(lim.sh) : RCloseRel(o.d[k], lim.d[k], TolForAll(Fs), floor)) \cup
-                   (IF plain THEN F("DeepEqualsProjection", \A k \in 1..Size(pr.sh) : (~pr.m[k] /\ ~o.m[k]) => RCloseRel(o.d[k], pr.d[k], Tau, floor))
+              \* cell 1 = "alternative allele absent from the subsample" is not compared: a monomorphic site is never called
+              \* variant, whatever the coverage (NoCall[0] = 1), and that cell is a corner the plain projection leaves undefined
+              THEN F("DeepEqualsSubsampling", \A k \in 2..Size(lim.sh) : RCloseRel(o.d[k], lim.d[k], TolForAll(Fs), floor)) \cup
+                   (IF plain THEN F("DeepEqualsProjection", \A k \in 2..Size(pr.sh) : (~pr.m[k] /\ ~o.m[k]) => RCloseRel(o.d[k], pr.d[k], Tau, floor))
                     ELSE {})
               ELSE {}) \cup
              F("DeepTotalNotIncreased", IsNumSeq(o.d) /\ TotalNotIncreased(o, s))
